@@ -23,7 +23,8 @@ Open Scope N_scope.
    anchors below are read off the source on every check (gen/GenMulti.v) *)
 Theorem C02_model_is_current :
   Current = Repaired /\ multi_get_range_is_floor_split = true /\ multi_job_flag_overrides = true /\
-  multi_dev_profile_compares_hasher = true /\ multi_hands_input_back = true /\ MULTI_EARLY_RETURNS = 1.
+  multi_dev_profile_compares_hasher = true /\ multi_hands_input_back = true /\
+  multi_dict_window_after_sanitize = true /\ MULTI_EARLY_RETURNS = 1.
 Proof. exact current_is_repaired. Qed.
 Print Assumptions C02_model_is_current.
 
